@@ -173,6 +173,20 @@ class EscapePolicy(InlineOnly):
             if kind == "tuple":
                 return []
             return ["KeyError"]
+        if ev.kind == "unpack":
+            # `a, b = <value>`: fails with ValueError when the value does not have exactly n elements
+            n = int(ev.attrname)
+            v = ev.value
+            if v[0] == "call":
+                uc = layout.unpack_call(eng, v)
+                if uc is not None:
+                    return [] if len(uc[0].items) == n else ["ValueError"]
+                if v[1][0] == "attr" and v[1][2] in ("split", "rsplit", "splitlines"):
+                    o.note_site("ValueError", ev)
+                    return ["ValueError"]  # number of parts depends on the data
+                if v[1][0] == "attr" and v[1][2] in ("partition", "rpartition"):
+                    return [] if n == 3 else ["ValueError"]
+            return []
         if ev.kind != "call":
             return []
         f = ev.fterm
